@@ -180,14 +180,20 @@ int yr_modules_unload_all(YR_SCAN_CONTEXT* context)
        module->name != NULL && module->unload != NULL;
        module++)
   {
-    YR_OBJECT* module_structure = (YR_OBJECT*) yr_hash_table_remove(
+    YR_OBJECT* module_structure = (YR_OBJECT*) yr_hash_table_lookup(
         context->objects_table, module->name, NULL);
 
-    if (module_structure != NULL)
-    {
-      module->unload(module_structure);
-      yr_object_destroy(module_structure);
-    }
+    // External variables live in the same table. One that happens to have
+    // the name of a module the rules don't import is not a module structure
+    // and must stay where it is.
+    if (module_structure == NULL ||
+        module_structure->type != OBJECT_TYPE_STRUCTURE)
+      continue;
+
+    yr_hash_table_remove(context->objects_table, module->name, NULL);
+
+    module->unload(module_structure);
+    yr_object_destroy(module_structure);
   }
 
   return ERROR_SUCCESS;
